@@ -71,6 +71,10 @@ pub enum Init {
     /// a generated member of the remaining documented range (2^cap < d*g < 2^(cap+1)); Newton and
     /// Goldschmidt only
     DocUpper(u16),
+    /// a generated over-estimate from the lower half of that range (2^cap < d*g <= 1.5 * 2^cap):
+    /// Newton's relative error squares per iteration, so the rule-of-thumb iteration counts
+    /// converge from there (0.5^32 < 2^-16), unlike from the very top of the documented range
+    DocMid(u16),
 }
 
 #[derive(Clone, Debug, Serialize, Deserialize, PartialEq, Eq, Hash)]
@@ -336,6 +340,17 @@ fn init_value(op: &Op, init: Init, d: i64) -> Option<i64> {
                     Some((l, h)) => Some(l + (((u as i128) * ((h - l + 1) as i128)) >> 16) as i64),
                     None => Some(hi),
                 },
+                Init::DocMid(u) => match newton_init_upper(cap, d) {
+                    Some((l, _)) => {
+                        let h = (((3i128 << cap) / 2) / (d as i128)) as i64;
+                        if h >= l {
+                            Some(l + (((u as i128) * ((h - l + 1) as i128)) >> 16) as i64)
+                        } else {
+                            Some(hi)
+                        }
+                    }
+                    None => Some(hi),
+                },
             }
         }
         Op::InvSqrt { cap, .. } => {
@@ -350,7 +365,7 @@ fn init_value(op: &Op, init: Init, d: i64) -> Option<i64> {
                     Some(g)
                 }
                 Init::Low => Some(lo),
-                Init::High | Init::DocUpper(_) => Some(hi),
+                Init::High | Init::DocUpper(_) | Init::DocMid(_) => Some(hi),
                 Init::Sel(u) => Some(lo + pick(u, (hi - lo + 1) as usize) as i64),
             }
         }
@@ -871,6 +886,7 @@ pub fn oracle(c: &Case) -> Outcome {
                 Init::High => "high",
                 Init::Sel(_) => "sel",
                 Init::DocUpper(_) => "doc-upper",
+                Init::DocMid(_) => "doc-mid",
             }
         ),
         format!("points:{}", if n >= 4096 { ">=4096" } else if n >= 256 { "256-4095" } else if n >= 16 { "16-255" } else { "<16" }),
@@ -1457,6 +1473,7 @@ fn arb_init(op: Op) -> BoxedStrategy<Init> {
             1 => Just(Init::Low),
             1 => Just(Init::High),
             3 => any::<u16>().prop_map(Init::Sel),
+            3 => any::<u16>().prop_map(Init::DocMid),
         ]
         .boxed(),
         _ => Just(Init::None).boxed(),
